@@ -538,6 +538,8 @@ var_opt_sketch<T, A> var_opt_sketch<T, A>::deserialize(const void* bytes, size_t
       marks.get()[i] = ((val >> (i & 0x7)) & 0x1) == 1;
       num_marks_in_h += (marks.get()[i] ? 1 : 0);
     }
+    // the gap and the R region carry no marks; do not leave them indeterminate (decrease_k_by_1 swaps them)
+    std::fill(marks.get() + h, marks.get() + array_size, false);
   }
 
   // read the sample items, skipping the gap. Either h_ or r_ may be 0
@@ -620,6 +622,8 @@ var_opt_sketch<T, A> var_opt_sketch<T, A>::deserialize(std::istream& is, const S
       marks.get()[i] = ((val >> (i & 0x7)) & 0x1) == 1;
       num_marks_in_h += (marks.get()[i] ? 1 : 0);
     }
+    // the gap and the R region carry no marks; do not leave them indeterminate (decrease_k_by_1 swaps them)
+    std::fill(marks.get() + h, marks.get() + array_size, false);
   }
 
   // read the sample items, skipping the gap. Either h or r may be 0
